@@ -20,6 +20,7 @@ def items_for(ms):
     S = real1.render()[0] + ";"
     decoys = [
         "// " + S + "\n", "/* " + S + " */", "/*\n" + S + "\n*/", "/// " + S + "\n", "//! " + S + "\n", "/** " + S + " */",
+        "/* " + S + " **/", "/**** " + S + " ****/", "/* a /* b **/ " + S + " */",
         "/* " + S + " // see http://x.y/z */", "/* // */", "// /* " + S + "\n", "/* /* inner */ " + S + " */",
         'debug!("x");', 'println!("x");',
         name + 'x!("x");', "x" + name + '!("x");', "my_" + name + '!("x");', name + '_!("x");',
@@ -112,7 +113,7 @@ def run(tier, v):
     pool.close()
     v.count(agg["n"])
     v.coverage["distinct_nontrivial"] += agg["distinct"]
-    v.subspace("all sequences of 1..%d items (other macro sets than the default: 1..3) from 27 decoys + 2 real statements x joiner {newline, blank, nothing} x tail {none, newline, "
+    v.subspace("all sequences of 1..%d items (other macro sets than the default: 1..3) from 30 decoys + 2 real statements x joiner {newline, blank, nothing} x tail {none, newline, "
                "line comment at EOF without newline} x macro set {default, two-segment module, non-ASCII module and name, three modules with different names (+ 6 cross-pair decoys)} x style" % maxlen, agg["n"], exhaustive=True,
                sequences_containing_real_statements=agg["nonvacuous"])
     for s in agg["samples"]:
